@@ -13,6 +13,7 @@ package obfs
 import (
 	"bytes"
 	"encoding/json"
+	"errors"
 	"fmt"
 	"net"
 	"runtime"
@@ -625,6 +626,216 @@ func c14ReaderBufs(L int) []c14RBuf {
 	return r
 }
 
+// ---- part "refused-write": a history on ONE sender conn towards one peer in which the inner
+// socket refuses a datagram of a long-header packet after FailAt-1 of its chunks already left
+// (ECONNREFUSED/ENOBUFS/EPERM are ordinary answers of a UDP socket; vnet.PacketConn.WriteErr),
+// between two long-header packets whose WriteTo succeeds. Everything that reached the wire is
+// delivered to ONE receiver from one source, so the chunks of the refused packet are "chunks of
+// another message interleaved" for the packets written around it: each packet whose WriteTo
+// succeeded must come out byte-identical exactly once, and nothing else may come out.
+// Added after the independently seeded change C14-8 (writeFragmented only peeked the next message
+// id and advanced the counter after the last chunk was written, so the packet written after a
+// half-sent one - or by an overlapping writer, see conc-two-writers - reused its message id).
+type c14RefusedCase struct {
+	Cfg    int `json:"cfg"`
+	Len    int `json:"len"`
+	C1     int `json:"refused_chunks"` // chunk-count draw of the refused packet
+	FailAt int `json:"fail_at"`        // 1-based datagram of the refused packet the socket refuses
+	C2     int `json:"ok_chunks"`      // chunk-count draw of the packets written before and after it
+}
+
+var errC14Refused = errors.New("sendto: connection refused")
+
+func c14RunRefused(c *c14RefusedCase, st *c14FrameStats) string {
+	return c14Seq(1, func(e *vsched.Exec) string { return c14RunRefusedInner(e, c, st) })
+}
+
+func c14RunRefusedInner(e *vsched.Exec, c *c14RefusedCase, st *c14FrameStats) string {
+	cfg := c14Cfgs[c.Cfg]
+	opts := GeckoOptions{Password: c14PSK, MinPacketSize: cfg.Min, MaxPacketSize: cfg.Max}
+	dst := c14Addr("peer")
+	L := c.Len
+	buf := make([]byte, 4096)
+
+	din := vnet.NewPacketConn("deob", 3)
+	ds, err := WrapPacketConnSalamander(din, c14PSK)
+	if err != nil {
+		return "harness: " + err.Error()
+	}
+	tap := vnet.NewPacketConn("snd", 1)
+	pc, err := WrapPacketConnGecko(tap, opts)
+	if err != nil {
+		return "WrapPacketConnGecko refused the configuration: " + err.Error()
+	}
+	g := pc.(*geckoPacketConn)
+	defer g.Close()
+	d := &c14Draws{mode: "min", tap: tap, min: cfg.Min, max: cfg.Max, cc: c.C2}
+	d.begin()
+	vrand.SetSource(e, d.draw)
+	g.msgID.Store(254) // the refused packet falls on the 8-bit wrap: ids 255, 0, 1 on the unchanged tree
+
+	calls, refuseAt, refused := 0, -1, 0
+	tap.WriteErr = func(int, vnet.Packet) error {
+		calls++
+		if calls == refuseAt {
+			refused++
+			return errC14Refused
+		}
+		return nil
+	}
+
+	// the history: packet 0 written, packet 1 refused at its FailAt-th datagram, packet 2 written
+	var pkts [3][]byte
+	var wires [3][][]byte
+	var frames [3][][]byte // plain frames in emission order
+	for m := 0; m < 3; m++ {
+		pkts[m] = c14Content(L, m, true)
+		d.cc = c.C2
+		if m == 1 {
+			d.cc = c.C1
+			refuseAt = calls + c.FailAt
+		}
+		d.begin()
+		n, err := g.WriteTo(pkts[m], dst)
+		refuseAt = -1
+		if m != 1 && (err != nil || n != L) {
+			return fmt.Sprintf("WriteTo(%d bytes) = %d, %v although the socket took every datagram", L, n, err)
+		}
+		if m == 1 && refused != 1 {
+			st.unfaithful = fmt.Sprintf("sender made fewer than %d socket writes for a chunk-count draw of %d", c.FailAt, c.C1)
+			return ""
+		}
+		for _, w := range tap.Sent[d.base:] {
+			din.Inject(w.Data, c14Addr("w"))
+			k, _, err := ds.ReadFrom(buf)
+			if err != nil {
+				return "Salamander receive error: " + err.Error()
+			}
+			f := append([]byte(nil), buf[:k]...)
+			if _, cl := c14ParseFrame(f); cl != "" {
+				return "emitted " + cl
+			}
+			wires[m] = append(wires[m], w.Data)
+			frames[m] = append(frames[m], f)
+		}
+		if m != 1 && len(frames[m]) != c.C2 && st.unfaithful == "" {
+			st.unfaithful = fmt.Sprintf("sender emitted %d datagrams for a chunk-count draw of %d", len(frames[m]), c.C2)
+		}
+	}
+	if len(frames[1]) >= c.C1 {
+		// every chunk of the refused packet is on the wire all the same: the socket's refusal was not
+		// what this case enumerates (not a property clause)
+		st.unfaithful = fmt.Sprintf("%d datagrams of the refused packet left for a chunk-count draw of %d", len(frames[1]), c.C1)
+		return ""
+	}
+	st.shape = fmt.Sprintf("left=%d", len(frames[1]))
+	if _, err := g.WriteTo([]byte{0x00}, dst); err != nil {
+		return "short-header WriteTo error: " + err.Error()
+	}
+	sentinelWire := tap.Sent[len(tap.Sent)-1].Data
+
+	// delivery orders of everything that reached the wire, each from a fresh source of one receiver
+	type fr struct{ m, j int }
+	var emitted, blocksRev, mixed []fr
+	for m := 0; m < 3; m++ {
+		for j := range frames[m] {
+			emitted = append(emitted, fr{m, j})
+		}
+	}
+	for m := 2; m >= 0; m-- {
+		for j := range frames[m] {
+			blocksRev = append(blocksRev, fr{m, j})
+		}
+	}
+	for j := 0; j < 8; j++ { // round-robin: packet 2, refused packet, packet 0
+		for _, m := range []int{2, 1, 0} {
+			if j < len(frames[m]) {
+				mixed = append(mixed, fr{m, j})
+			}
+		}
+	}
+	reversed := make([]fr, len(emitted))
+	for i, x := range emitted {
+		reversed[len(emitted)-1-i] = x
+	}
+	judge := func(got []c14Got, src, what string) string {
+		seen := [3]bool{}
+		for _, x := range got {
+			hit := false
+			for _, m := range []int{0, 2} {
+				if !seen[m] && x.src == src && bytes.Equal(x.data, pkts[m]) {
+					seen[m], hit = true, true
+					break
+				}
+			}
+			if !hit {
+				return fmt.Sprintf("receiver returned a packet (%d bytes) that equals none of the packets whose WriteTo succeeded, after a write refused by the socket at datagram %d of %d (%s)", len(x.data), c.FailAt, c.C1, what)
+			}
+		}
+		for _, m := range []int{0, 2} {
+			if !seen[m] {
+				return fmt.Sprintf("packet %s a write refused by the socket at datagram %d of %d was not delivered although its WriteTo succeeded (%s)", map[int]string{0: "written before", 2: "written after"}[m], c.FailAt, c.C1, what)
+			}
+		}
+		return ""
+	}
+	rp := vnet.NewPacketConn("rplain", 4)
+	rg := newGeckoPacketConn(rp, cfg.Min, cfg.Max)
+	defer rg.Close()
+	for k, o := range []struct {
+		what  string
+		order []fr
+	}{{"emission order", emitted}, {"reversed emission order", reversed}, {"packets in reverse, chunks forward", blocksRev}, {"round-robin interleaving", mixed}} {
+		st.orders++
+		src := c14Addr("rf" + strconv.Itoa(k))
+		for _, x := range o.order {
+			rp.Inject(frames[x.m][x.j], src)
+		}
+		got, cl := c14Drain(rg, rp, []byte{0x00}, buf)
+		if cl != "" {
+			return cl
+		}
+		if cl := judge(got, src.String(), o.what); cl != "" {
+			return cl
+		}
+	}
+	if cl := c14Census(rg, geckoMaxPerSource, geckoMaxReassembly); cl != "" {
+		return cl
+	}
+	// end to end: the wire datagrams in emission order into a full WrapPacketConnGecko receiver
+	rw := vnet.NewPacketConn("rwire", 5)
+	re, err := WrapPacketConnGecko(rw, opts)
+	if err != nil {
+		return "WrapPacketConnGecko refused the configuration: " + err.Error()
+	}
+	defer re.Close()
+	st.orders++
+	for m := 0; m < 3; m++ {
+		for _, w := range wires[m] {
+			rw.Inject(w, c14Addr("E"))
+		}
+	}
+	got, cl := c14Drain(re, rw, sentinelWire, buf)
+	if cl != "" {
+		return cl
+	}
+	return judge(got, c14Addr("E").String(), "end to end in emission order")
+}
+
+func c14RefusedSig(c *c14RefusedCase, clause string) string {
+	short := clause
+	for i, r := range clause {
+		if r >= '0' && r <= '9' {
+			short = clause[:i]
+			break
+		}
+	}
+	if len(short) > 80 {
+		short = short[:80]
+	}
+	return fmt.Sprintf("frames/refused-write/%s/min=%d,max=%d,len=%d,refused_chunks=%d,fail_at=%d,ok_chunks=%d", short, c14Cfgs[c.Cfg].Min, c14Cfgs[c.Cfg].Max, c.Len, c.C1, c.FailAt, c.C2)
+}
+
 var c14BoundaryLens = []int{1, 2, 3, 7, 8, 9, 16, 63, 64, 65, 87, 88, 173, 174, 175, 176, 260, 261, 262, 347, 348, 349, 435, 436, 522, 609, 696, 697, 997, 998, 999, 1000, 1199, 1200, 1201, 1496, 1497, 1498, 1499, 1500}
 
 func c14FrameSig(c *c14FrameCase, clause string) string {
@@ -693,6 +904,69 @@ func c14FramesEnumerate(sh *evidence.Shard) {
 		}
 		return stop
 	}
+	// refused-write history (see c14RefusedCase): runs first, it is small
+	{
+		p0 := sh.Part("refused-write", "enum")
+		okChunks := "2..8"
+		if !th {
+			okChunks = "quick tier: the refused packet's count and the next count (cyclically) - same and different chunk count; thorough: 2..8"
+		}
+		p0.Alphabet = map[string]any{
+			"size_configs(min,max)": c14Cfgs, "packet_len(boundary)": c14BoundaryLens,
+			"history":                            "one sender conn, one peer: long-header packet written, long-header packet REFUSED by the inner socket at its k-th datagram, long-header packet written (message ids 255, 0, 1), sentinel",
+			"refused_packet_chunk_count_draw":    "2..8",
+			"refused_datagram(k)":                "1..chunk count (k-1 chunks of the refused packet are on the wire)",
+			"written_packets_chunk_count_draw":   okChunks,
+			"delivery_orders(all to one source)": "emission order, reversed, packets in reverse with chunks forward, round-robin interleaving of the three packets, end-to-end through Salamander in emission order",
+			"pad_draw":                           "min",
+		}
+		var grp int64
+		for _, L := range c14BoundaryLens {
+			for ci := range c14Cfgs {
+				grp++
+				if !env.Mine(grp) || expired(p0, ci, L) {
+					continue
+				}
+				for c1 := 2; c1 <= 8 && !stop; c1++ {
+					for k := 1; k <= c1 && !stop; k++ {
+						for c2 := 2; c2 <= 8 && !stop; c2++ {
+							if !th && c2 != c1 && c2 != (c1-1)%7+2 {
+								continue
+							}
+							c := c14RefusedCase{Cfg: ci, Len: L, C1: c1, FailAt: k, C2: c2}
+							var st c14FrameStats
+							clause := c14RunRefused(&c, &st)
+							if st.unfaithful != "" {
+								p0.Count("cases_where_the_sender_did_not_follow_the_enumerated_draws", 1)
+								if p0.Exhaustive {
+									p0.Exhaustive = false
+									p0.Note("enumeration fidelity lost (not a violation): %s", st.unfaithful)
+								}
+								if clause == "" && st.orders == 0 {
+									continue
+								}
+							}
+							p0.Evaluations++
+							p0.Count("delivery_orders", st.orders)
+							p0.Class(ci, c1, st.shape, c1 == c2, clause == "")
+							if p0.Evaluations%997 == 5 {
+								p0.Sample(c)
+							}
+							if clause != "" {
+								sh.Violate(p0.Name, c14RefusedSig(&c, clause), clause, &c)
+								nviol++
+								if nviol >= 3 {
+									p0.Exhaustive = false
+									p0.Note("stopped after %d violations", nviol)
+									stop = true
+								}
+							}
+						}
+					}
+				}
+			}
+		}
+	}
 	p1 := sh.Part("size-identity", "enum")
 	minOrders, maxOrders := "all delivery orders", "all delivery orders"
 	if !th {
@@ -759,6 +1033,15 @@ func TestVerifC14Frames(t *testing.T) {
 	evidence.Main(t, "C14", evidence.Seq{
 		Run: c14FramesEnumerate,
 		Replay: func(part string, raw json.RawMessage) (bool, bool, string) {
+			if part == "refused-write" {
+				var c c14RefusedCase
+				if err := json.Unmarshal(raw, &c); err != nil {
+					return true, false, err.Error()
+				}
+				var st c14FrameStats
+				clause := c14RunRefused(&c, &st)
+				return true, clause != "", clause
+			}
 			if part != "size-identity" && part != "every-pad-value" {
 				return false, false, ""
 			}
